@@ -263,6 +263,7 @@ var cfgClauses = []string{"buffer", "search", "cross", "thin-full"}
 // defects, e.g. a pooled scratch value, only show after other configurations).
 type CfgCase struct {
 	Check  string   `json:"check"`
+	Sub    string   `json:"sub,omitempty"`
 	Cfg    Fields   `json:"cfg"`
 	Recent []Fields `json:"recent,omitempty"`
 	Doc    string   `json:"doc,omitempty"`
@@ -275,6 +276,11 @@ type cfgRun struct {
 	recent []Fields
 	cur    Fields
 	doc    string
+	sub    string // sub-check for the replay dispatch ("" = configuration value, "reported", "json")
+	// previous configuration of this worker and its document: parsed again
+	// after the current one has been marshalled (marshal A, marshal B, parse A)
+	prevDoc []byte
+	prevCfg lz.ParserConfig
 }
 
 func (r *cfgRun) fail(sig, format string, a ...any) {
@@ -284,7 +290,7 @@ func (r *cfgRun) fail(sig, format string, a ...any) {
 		return
 	}
 	r.col.Report(engine.Violation{Property: r.prop, Sig: full, Msg: fmt.Sprintf(format, a...),
-		Case: CfgCase{Check: r.prop, Cfg: r.cur, Recent: append([]Fields(nil), r.recent...), Doc: r.doc}, Rank: int64(len(r.cur.String()))})
+		Case: CfgCase{Check: r.prop, Sub: r.sub, Cfg: r.cur, Recent: append([]Fields(nil), r.recent...), Doc: r.doc}, Rank: int64(len(r.cur.String()))})
 }
 
 func (r *cfgRun) remember(f Fields) {
@@ -366,6 +372,16 @@ func (r *cfgRun) checkConfigValue(f Fields) {
 	if !reflect.DeepEqual(c, orig) {
 		r.fail("json|marshal-modifies", "json.Marshal modified the configuration %s", f)
 	}
+	if r.prevDoc != nil {
+		// the document of the previous configuration must still parse to the previous configuration
+		pb, perr := lz.ParseJSON(r.prevDoc)
+		r.st.Transitions++
+		if perr != nil || !reflect.DeepEqual(pb, r.prevCfg) {
+			r.doc = string(r.prevDoc)
+			r.fail("json|roundtrip-after-other", "after marshalling %s, ParseJSON(%s) = %+v, %v; want %+v (the result depends on what was marshalled or parsed before)", f, r.prevDoc, pb, perr, r.prevCfg)
+		}
+	}
+	r.prevDoc, r.prevCfg = b, orig
 	back, err := lz.ParseJSON(b)
 	r.st.Transitions++
 	if err != nil {
@@ -493,7 +509,7 @@ func jsonDocs() []jsonDoc {
 }
 
 func (r *cfgRun) checkDoc(d jsonDoc) {
-	r.cur, r.doc = Fields{Kind: "JSON", I: map[string]int{}}, d.text
+	r.cur, r.doc, r.sub = Fields{Kind: "JSON", I: map[string]int{}}, d.text, "json"
 	defer func() {
 		if x := recover(); x != nil {
 			r.fail("ParseJSON|panic", "ParseJSON(%q) panicked: %v", d.text, x)
@@ -579,6 +595,10 @@ func replayCfg(prop string, raw json.RawMessage, col *engine.Collector, body fun
 		r.remember(f)
 	}
 	r.col = col
+	if cc.Sub == "reported" {
+		checkReported(r, PCfg{Kind: cc.Cfg.Kind, JSON: cc.Doc}, Union(Binary(4), FewLong(12)))
+		return nil
+	}
 	if cc.Cfg.Kind == "JSON" {
 		for _, d := range jsonDocs() {
 			if d.text == cc.Doc {
@@ -593,3 +613,40 @@ func replayCfg(prop string, raw json.RawMessage, col *engine.Collector, body fun
 }
 
 var _ = hex.EncodeToString
+
+// checkReported compares a parser made from an accepted (defaults-completed)
+// configuration with one made from the configuration it reports.
+func checkReported(r *cfgRun, pc PCfg, inputs InputSet) {
+	r.cur = Fields{Kind: pc.Kind, I: map[string]int{}}
+	r.doc, r.sub = pc.JSON, "reported"
+	defer func() {
+		r.sub = ""
+		if x := recover(); x != nil {
+			// a parser that panics is C16's business, not a statement about configurations
+			r.st.Add("panics_recovered_and_left_to_C16", 1)
+		}
+	}()
+	c := pc.Config()
+	p, err := c.NewParser()
+	if err != nil {
+		r.fail("reported-config|rejected", "defaults-completed accepted configuration %s is rejected: %v", pc.JSON, err)
+		return
+	}
+	rep := p.ParserConfig()
+	if !reflect.DeepEqual(rep, c) {
+		r.fail("reported-config|differs", "ParserConfig() = %+v for a parser made from the defaults-completed %+v", rep, c)
+	}
+	if p.BufferConfig() != c.BufConfig() {
+		r.fail("reported-config|buffer-differs", "BufferConfig() = %+v, configuration has %+v", p.BufferConfig(), c.BufConfig())
+	}
+	inputs.Each(func(in []byte) {
+		a, errA := parseAll(c, in)
+		b, errB := parseAll(rep, in)
+		r.st.Execs += 2
+		r.st.Transitions += int64(len(a) + len(b))
+		if (errA == nil) != (errB == nil) || streamKey(a) != streamKey(b) {
+			r.fail("reported-config|behaves-differently", "parser made from ParserConfig() of %s emits different blocks on %q", pc.JSON, in)
+		}
+	})
+	r.st.Add("configs_compared", 1)
+}
